@@ -349,14 +349,15 @@ def gen_boundary_layout(rng, kind, target_free):
         if not ok:
             continue
         # NULL TLV padding chosen so that the free byte count hits the target
-        for nulls in range(0, 64):
+        for nulls in range(0, 80):
             oo = o + nulls
-            if any(a in skip for a in range(start0, oo + 4)) or oo + 4 > end:
+            if any(a in skip for a in range(start0, oo + 2)) or oo + 2 > end:
                 break
             if len([a for a in range(oo, end) if a not in skip]) == target_free:
                 for a in range(o, oo):
                     mem[a] = 0
-                d = dict(kind=kind, mem=mem, off=oo, skip=skip, end=end, ok=True, hdr3=True, nctl=nctl)
+                hdr3 = oo + 4 <= end and oo + 2 not in skip and oo + 3 not in skip
+                d = dict(kind=kind, mem=mem, off=oo, skip=skip, end=end, ok=True, hdr3=hdr3, nctl=nctl)
                 if kind != "t2":
                     d["hr"] = b"\x12\x4C"
                 return d
